@@ -21,18 +21,24 @@ class Undecided(Exception):
     pass
 
 
+def _clean(expr):
+    """Fresh copy of an expression without the index's back pointers (_parent/_module would
+    make copy.deepcopy drag the whole module along)."""
+    return ast.parse(ast.unparse(expr), mode="eval").body
+
+
 class _Subst(ast.NodeTransformer):
     def __init__(self, env):
         self.env = env
 
     def visit_Name(self, node):
         if isinstance(node.ctx, ast.Load) and node.id in self.env:
-            return copy.deepcopy(self.env[node.id])
+            return _clean(self.env[node.id])
         return node
 
 
 def subst(expr, env):
-    return _Subst(env).visit(copy.deepcopy(expr))
+    return _Subst(env).visit(_clean(expr))
 
 
 def atoms_of(expr, out=None):
